@@ -106,6 +106,7 @@ func NewIfdReader(l zerolog.Logger) ifdReader {
 func (ir *ifdReader) ResetReader(r io.Reader) {
 	ir.buffer.clear()
 	ir.reader = r
+	ir.po = 0
 }
 
 // SetCustomTagParser sets a custom tag parser
